@@ -16,10 +16,10 @@
      (|result| < limit or no limit); an error without cause; the recorded reverse-expansion
      stream violates its contract (nofurther_sound / complete / duplicate-free), evaluated with
      the extracted Coq predicates.
+   (The former finding rswu_userset_leak — sqlite.ReadStartingWithUser matching usersets for an object
+   filter, DESIGN.md F7 — is repaired in /repo by a279b76; an object returned on sqlite that the
+   subject does not hold is a PROP like on any backend.)
    KNOWN <flag>: the deviation is explained by a listed finding whose trigger is computed here:
-     rswu_userset_leak       backend = sqlite, subject is a plain object X, and the object's value
-                             changes when every valid tuple ..@X#r is additionally read as ..@X
-                             (what sqlite.ReadStartingWithUser returns for the filter {Object: X})
      excl_sub_cycle / cond_err_swallowed   trigger flags of the Check model V1 for the object (F1/F2
                              reach ListObjects through its internal Check calls; never for the pipeline)
      weighted_degenerate_rewrite           weighted engine fails with an internal error and a relation
@@ -158,23 +158,6 @@ let f _id vs =
           let spec id = atomval subj v (objof id) rel in
           let permitted = List.filter (fun id -> spec id = T) univ in
           let isperm id = List.mem id permitted in
-          (* the sqlite ReadStartingWithUser leak: tuples ..@X#r also read as ..@X *)
-          let leaked = match subj with
-            | SObj x ->
-              List.filter_map (fun t ->
-                match t.t_sub with
-                | SSet (x', _) when x' = x && valid_for_read m cs t ->
-                  let t' = { t with t_sub = SObj x } in
-                  if valid_for_read m cs t' then Some t' else None
-                | _ -> None) store
-            | _ -> [] in
-          let spec_leak =
-            if leaked = [] then spec
-            else begin
-              let (v2, conv2) = lfp m cs (store @ leaked) subj ats in
-              if conv2 then (fun id -> atomval subj v2 (objof id) rel) else spec
-            end in
-          let leak_obj b id = b = 1 && leaked <> [] && spec_leak id <> spec id in
           (* the pipeline's per-edge condition filter *)
           let strict_ok t =
             match get_relation m t.t_obj.otype t.t_rel with
@@ -212,8 +195,7 @@ let f _id vs =
              NoFurtherEval / completeness contract), so the Check findings cannot explain it *)
           let deviation ?(l0 = false) ?(failopen = false) ?(nocheck = false) ?(transient = false) ?(limit = 0) b e returned id what =
             let txt = Printf.sprintf "%s: object %d %s (spec=%s)" (where b e) id what (b3s (spec id)) in
-            if leak_obj b id then (known "rswu_userset_leak" txt; true)
-            else if strict_obj e id then (known "pipeline_strict_condition_filter" txt; true)
+            if strict_obj e id then (known "pipeline_strict_condition_filter" txt; true)
             else if failopen && returned && e = 2 && has_e && (Lazy.force spec_nodiff) id = T then
               (known "pipeline_streamed_error_failopen" txt; true)
             else if l0 && not returned && e <> 2 && Lazy.force err_evidence then (known "limit0_error_swallowed" txt; true)
@@ -362,7 +344,7 @@ let f _id vs =
      | [], d :: _, _ -> "DIFF " ^ d
      | [], [], (_ :: _ as ks) ->
        (* one verdict per record: report the rarest flag present *)
-       let prio = ["limit_cancel_race"; "eval_error_lost_on_cancel"; "rswu_userset_leak"; "pipeline_streamed_error_failopen";
+       let prio = ["limit_cancel_race"; "eval_error_lost_on_cancel"; "pipeline_streamed_error_failopen";
                    "pipeline_strict_condition_filter"; "weighted_degenerate_rewrite"; "cond_err_swallowed"; "excl_sub_cycle";
                    "limit0_error_swallowed"] in
        let has f k = String.length k > String.length f && String.sub k 0 (String.length f + 1) = f ^ " " in
